@@ -149,12 +149,13 @@ def run(ctx):
     fs = frozenset
     menu_small = fs([fs(), fs(['V']), fs(['R', 'V']), fs(['C', 'R', 'U', 'V']), fs(['U']), fs(['C'])])
     menu_tiny = fs([fs(), fs(['V']), fs(['C', 'R', 'U', 'V'])])
-    configs = [('2', '1', menu_small), ('3', '1', menu_tiny)] if ctx.quick else [('2', '1', menu_small), ('3', '1', menu_tiny), ('2', '2', menu_tiny)]
+    # (NO = 0: a set with a template and no object - a table without rows)
+    configs = [('2', '1', menu_small), ('3', '1', menu_tiny), ('2', '0', menu_small)] if ctx.quick else [('2', '1', menu_small), ('3', '1', menu_tiny), ('2', '2', menu_tiny), ('3', '0', menu_small)]
     ntests = 0
     for nt, no, menu in configs:
         r, states = ctx.tlc_dump('MC_DlisEflr_%s_%s' % (nt, no), 'DlisEflr', consts={'HasMenu': menu}, cfg_consts={'NT': nt, 'NO': no},
                                  invariants=['TableIsResolve', 'RowsInOrder'], deadlock=True, timeout=2400,
-                                 need_actions=['ReadTAttr', 'StartObj', 'SkipInvariant', 'ReadOAttr', 'EndObj'])
+                                 need_actions=['ReadTAttr', 'StartObj', 'SkipInvariant', 'ReadOAttr', 'EndObj'] if no != '0' else ['ReadTAttr'])
         for st in states:
             if st['phase'] != 'done':
                 continue
